@@ -168,12 +168,12 @@ def _same_section(ctx, b, bb, lookup_term):
         if f[0] == "truth" and f[2] is True or f[0] == "variant" and f[2] in ("Some", "Occupied"):
             for c in og.walk(f[1]):
                 if isinstance(c, tuple) and c and c[0] in ("call", "ret") and c[3][0] == b.id and any(x in c[1] for x in ("contains_key", "::get", "load_tower_info", "get_tower_status", "::entry")):
-                    tb = c[3][1]
-                    common = {l for l in bl.held_at_term(tb) if l in held_now}
-                    if common and bb in b.reachable(tb):
-                        between = ctx.locks._between(b, tb, bb)
-                        if any(all(l in bl.held_at_term(x) for x in between) for l in common):
-                            return "membership tested at bb%d under the same guard" % tb
+                    for tb in [x for x in b.rpo() if b.orig(x) == c[3][1]]:  # (site ids are original block numbers)
+                        common = {l for l in bl.held_at_term(tb) if l in held_now}
+                        if common and bb in b.reachable(tb):
+                            between = ctx.locks._between(b, tb, bb)
+                            if any(all(l in bl.held_at_term(x) for x in between) for l in common):
+                                return "membership tested at bb%d under the same guard" % b.orig(tb)
         if f[0] == "variant" and f[2] == "Vacant":
             pass
     # not Vacant => Occupied: `if let Vacant = entry {..} else { get().unwrap() }` under one &mut self
@@ -429,7 +429,7 @@ def _pn3(ctx, rr, b, bb, key, pt, pname, held, where):
         rr.ok("%s: insert is %s" % (key, kind or "not an insert"), sample={"rule": "PN", "site": key, "insert": kind})
         return
     site = pt[3] if pt[0] == "call" else pt[3]
-    sb = site[1] if site[0] == b.id else bb
+    sb = b.block_of_site(site[1], toward=bb) if site[0] == b.id else bb
     fs = facts_at(ctx, b, sb)
     bl = ctx.locks.locks(b.id)
     # (a) existence test with the not-exists edge, under the same continuously held guard
@@ -437,7 +437,7 @@ def _pn3(ctx, rr, b, bb, key, pt, pname, held, where):
         if f[0] == "truth" and f[2] is False:
             for c in og.walk(f[1]):
                 if isinstance(c, tuple) and c and c[0] == "call" and c[1].endswith("_exists") and c[3][0] == b.id:
-                    tb = c[3][1]
+                    tb = b.block_of_site(c[3][1], toward=sb)
                     common = [l for l in bl.held_at_term(tb) if l in bl.held_at_term(sb)]
                     between = ctx.locks._between(b, tb, sb)
                     if any(all(l in bl.held_at_term(x) for x in between) for l in common):
